@@ -3,6 +3,21 @@ from .runner import M
 F = "src/allmydata/web/filenode.py"
 FM = "src/allmydata/mutable/filenode.py"
 FR = "src/allmydata/mutable/retrieve.py"
+FC = "src/allmydata/web/common.py"
+FI = "src/allmydata/immutable/filenode.py"
+_CODE_KNOWN = "    if code is not None:\n        return _renderHTTP_exception_simple(request, text, code)\n"
+_SIMPLE = ("    request.setResponseCode(code)\n"
+           "    request.setHeader(\"content-type\", \"text/plain;charset=utf-8\")\n"
+           "    if isinstance(text, str):\n"
+           "        text = text.encode(\"utf-8\")\n"
+           "    request.setHeader(\"content-length\", b\"%d\" % len(text))\n"
+           "    return text\n")
+_CTR = ("        offset_big = offset // 16\n"
+        "        offset_small = offset % 16\n"
+        "        iv = binascii.unhexlify(\"%032x\" % offset_big)\n"
+        "        self._decryptor = aes.create_decryptor(readkey, iv)\n"
+        "        # this is just to advance the counter\n"
+        "        aes.decrypt_data(self._decryptor, b\"\\x00\" * offset_small)\n")
 _RET_ALL = "            return [ parse_range(r.strip()) for r in rangeset.split(',') ]\n"
 
 MUTANTS = [
@@ -288,6 +303,122 @@ MUTANTS = [
       "            else:\n                size_to_use = self._segment_size\n",
       "            if segnum != self._num_segments - 1:\n                size_to_use = self._segment_size\n"
       "            else:\n                size_to_use = self._tail_data_size\n", None),
+    # ---- C40.13 the error answer (416) does not depend on the request method
+    M("error-head-short-circuit", FC, _CODE_KNOWN,
+      "    if request.method == b\"HEAD\":\n"
+      "        if code is None:\n"
+      "            code = http.INTERNAL_SERVER_ERROR\n"
+      "        request.setResponseCode(code)\n"
+      "        return b\"\"\n\n" + _CODE_KNOWN, "C40.13"),
+    M("error-simple-head-before-headers", FC, _SIMPLE,
+      "    request.setResponseCode(code)\n"
+      "    if request.method in (b\"HEAD\",):\n"
+      "        return b\"\"\n"
+      "    request.setHeader(\"content-type\", \"text/plain;charset=utf-8\")\n"
+      "    if isinstance(text, str):\n"
+      "        text = text.encode(\"utf-8\")\n"
+      "    request.setHeader(\"content-length\", b\"%d\" % len(text))\n"
+      "    return text\n", "C40.13"),
+    M("error-head-length-of-nothing", FC, _SIMPLE,
+      "    request.setResponseCode(code)\n"
+      "    request.setHeader(\"content-type\", \"text/plain;charset=utf-8\")\n"
+      "    if isinstance(text, str):\n"
+      "        text = text.encode(\"utf-8\")\n"
+      "    if request.method == b\"HEAD\":\n"
+      "        text = b\"\"\n"
+      "    request.setHeader(\"content-length\", b\"%d\" % len(text))\n"
+      "    return text\n", "C40.13"),
+    M("finish-head-failure-shortcut", FC,
+      "    if isinstance(result, Failure):\n        if result.check(CancelledError):\n            return\n",
+      "    if isinstance(result, Failure):\n        if result.check(CancelledError):\n            return\n"
+      "        if request.method == b\"HEAD\":\n"
+      "            request.setResponseCode(http.INTERNAL_SERVER_ERROR)\n"
+      "            request.finish()\n"
+      "            return\n", "C40.13"),
+    M("wrapper-head-bypasses-finish", FC,
+      "        if getattr(request, \"dont_apply_extra_processing\", False):\n",
+      "        if request.method == b\"HEAD\" or getattr(request, \"dont_apply_extra_processing\", False):\n", "C40.13"),
+    M("benign-error-head-empty-body-after-headers", FC, _SIMPLE,
+      "    request.setResponseCode(code)\n"
+      "    request.setHeader(\"content-type\", \"text/plain;charset=utf-8\")\n"
+      "    if isinstance(text, str):\n"
+      "        text = text.encode(\"utf-8\")\n"
+      "    request.setHeader(\"content-length\", b\"%d\" % len(text))\n"
+      "    if request.method == b\"HEAD\":\n"
+      "        return b\"\"\n"
+      "    return text\n", None),
+    M("benign-error-head-skips-traceback-log", FC, _CODE_KNOWN,
+      "    is_head = request.method == b\"HEAD\"\n"
+      "    if not is_head:\n"
+      "        log.msg(\"rendering error page\")\n" + _CODE_KNOWN, None),
+    M("benign-error-code-test-flipped", FC, _CODE_KNOWN,
+      "    status = code\n    if not (status is None):\n"
+      "        return _renderHTTP_exception_simple(request, code=status, text=text)\n", None),
+    M("benign-finish-head-writes-nothing", FC,
+      "        request.write(result)\n        request.finish()\n    elif isinstance(result, DecodedURL):\n",
+      "        if request.method != b\"HEAD\":\n            request.write(result)\n"
+      "        request.finish()\n    elif isinstance(result, DecodedURL):\n", None),
+    # ---- C40.14 the decryptor of an immutable read stands at the read offset on every path
+    M("ctr-fast-path-first-block", FI, _CTR,
+      "        offset_big, offset_small = divmod(offset, 16)\n"
+      "        if offset_big:\n"
+      "            iv = binascii.unhexlify(\"%032x\" % offset_big)\n"
+      "            self._decryptor = aes.create_decryptor(readkey, iv)\n"
+      "            aes.decrypt_data(self._decryptor, b\"\\x00\" * offset_small)\n"
+      "        else:\n"
+      "            self._decryptor = aes.create_decryptor(readkey)\n", "C40.14"),
+    M("ctr-fast-path-small-offset", FI, _CTR,
+      "        if offset < 16:\n"
+      "            self._decryptor = aes.create_decryptor(readkey)\n"
+      "            return\n" + _CTR, "C40.14"),
+    M("ctr-residue-only-past-first-block", FI,
+      "        aes.decrypt_data(self._decryptor, b\"\\x00\" * offset_small)\n",
+      "        if offset >= 16:\n"
+      "            aes.decrypt_data(self._decryptor, b\"\\x00\" * offset_small)\n", "C40.14"),
+    M("ctr-default-iv-for-aligned", FI, _CTR,
+      "        offset_big = offset // 16\n"
+      "        offset_small = offset % 16\n"
+      "        if offset_small:\n"
+      "            iv = binascii.unhexlify(\"%032x\" % offset_big)\n"
+      "            self._decryptor = aes.create_decryptor(readkey, iv)\n"
+      "            aes.decrypt_data(self._decryptor, b\"\\x00\" * offset_small)\n"
+      "        else:\n"
+      "            self._decryptor = aes.create_decryptor(readkey)\n", "C40.14"),
+    M("ctr-residue-is-block-number", FI,
+      "        aes.decrypt_data(self._decryptor, b\"\\x00\" * offset_small)\n",
+      "        aes.decrypt_data(self._decryptor, b\"\\x00\" * offset_big)\n", "C40.14"),
+    M("ctr-decryptor-not-given-offset", FI,
+      "        decryptor = DecryptingConsumer(consumer, self._readkey, offset)\n",
+      "        decryptor = DecryptingConsumer(consumer, self._readkey, 0)\n", "C40.14"),
+    M("benign-ctr-divmod", FI, _CTR,
+      "        blocks, within = divmod(offset, 16)\n"
+      "        counter = binascii.unhexlify(\"%032x\" % (blocks,))\n"
+      "        dec = aes.create_decryptor(readkey, counter)\n"
+      "        aes.decrypt_data(dec, within * b\"\\x00\")\n"
+      "        self._decryptor = dec\n", None),
+    M("benign-ctr-fast-path-offset-zero", FI, _CTR,
+      "        if offset == 0:\n"
+      "            self._decryptor = aes.create_decryptor(readkey)\n"
+      "        else:\n"
+      "            offset_big, offset_small = divmod(offset, 16)\n"
+      "            iv = binascii.unhexlify(\"%032x\" % offset_big)\n"
+      "            self._decryptor = aes.create_decryptor(readkey, iv)\n"
+      "            aes.decrypt_data(self._decryptor, b\"\\x00\" * offset_small)\n", None),
+    M("benign-ctr-residue-only-when-nonzero", FI,
+      "        aes.decrypt_data(self._decryptor, b\"\\x00\" * offset_small)\n",
+      "        if offset_small:\n"
+      "            aes.decrypt_data(self._decryptor, b\"\\x00\" * offset_small)\n", None),
+    M("benign-ctr-default-iv-first-block", FI, _CTR,
+      "        offset_big = offset // 16\n"
+      "        offset_small = offset % 16\n"
+      "        if offset_big:\n"
+      "            self._decryptor = aes.create_decryptor(readkey, binascii.unhexlify(\"%032x\" % offset_big))\n"
+      "        else:\n"
+      "            self._decryptor = aes.create_decryptor(readkey)\n"
+      "        aes.decrypt_data(self._decryptor, b\"\\x00\" * offset_small)\n", None),
+    M("vanish-render-http-exception", FC,
+      "def _renderHTTP_exception(request, failure):", "def _renderHTTP_failure(request, failure):", "ANALYSIS-ERROR",
+      edits=[(FC, "            _renderHTTP_exception(request, result),\n", "            _renderHTTP_failure(request, result),\n")]),
     # ---- vanished anchor
     M("vanish-mutable-version-read", FM,
       "    def read(self, consumer, offset=0, size=None, fetch_privkey=False):",
